@@ -193,4 +193,29 @@ def gc (now : Int) (dir : Dir) : Dir := fun n =>
   | none => none
   | some f => if sidName n && !readTimestamp now f then none else some f
 
+/-! ## histories -/
+
+inductive Op where
+  | setClock (now : Int)
+  | save (sid : Bytes) (t : Int) (d : Bytes)
+  /-- a save that stops at crash point `(k, j)`; sectors `T` (size `S`) reached the disk -/
+  | crashSave (S : Nat) (sid : Bytes) (t : Int) (d : Bytes) (k j : Nat) (T : Nat → Bool)
+  | load (sid : Bytes)
+  | remove (sid : Bytes)
+  | gc
+
+structure World where
+  now : Int
+  dir : Dir
+
+def step (w : World) : Op → World
+  | .setClock n => { w with now := n }
+  | .save sid t d => { w with dir := save sid t d w.dir }
+  | .crashSave S sid t d k j T => { w with dir := crashSave S sid t d k j T w.dir }
+  | .load sid => { w with dir := (load w.now sid w.dir).2 }
+  | .remove sid => { w with dir := remove sid w.dir }
+  | .gc => { w with dir := gc w.now w.dir }
+
+def run (w : World) (ops : List Op) : World := ops.foldl step w
+
 end Cppcms.C18
